@@ -51,7 +51,7 @@ func (x *Exec) packBV(v Value) *Term {
 		return r
 	case ArrayRef:
 		return x.packBV(x.heapGet(vv.Obj))
-	case ChoiceV:
+	case *ChoiceV:
 		return Ite(vv.C, x.packBV(vv.A), x.packBV(vv.B))
 	}
 	unsup("cannot pack %T into a bit-vector", v)
@@ -136,6 +136,7 @@ func (x *Exec) smtCall(fn *ssa.Function, kind string, args []Value) Value {
 		typ  types.Type
 	}
 	var slots []slot
+	var arrSlots [][2]int
 	for i := 0; i < sig.Params().Len(); i++ {
 		pt := sig.Params().At(i).Type()
 		pn := fmt.Sprintf("p%d", i)
@@ -150,6 +151,7 @@ func (x *Exec) smtCall(fn *ssa.Function, kind string, args []Value) Value {
 			}
 			sv := asSlice(args[i])
 			arr := x.sliceAsArray(sv, w)
+			arrSlots = append(arrSlots, [2]int{len(actual), len(actual) + 1})
 			actual = append(actual, arr, sv.Len)
 			sorts = append(sorts, Arr(w), BV(64))
 			pnames = append(pnames, pn+"a", pn+"n")
@@ -175,7 +177,7 @@ func (x *Exec) smtCall(fn *ssa.Function, kind string, args []Value) Value {
 		ret = BV(packWidth(rt))
 	}
 	if _, ok := TB.funcs[name]; !ok {
-		fd := &FuncDecl{Name: name, Params: sorts, PNames: pnames, Ret: ret}
+		fd := &FuncDecl{Name: name, Params: sorts, PNames: pnames, Ret: ret, ArrSlots: arrSlots}
 		DeclareFunc(fd)
 		if kind == "smtfun" {
 			fd.Lazy = func(fd *FuncDecl) {
